@@ -8,6 +8,7 @@ CONSTANTS
   RejectChoices = {TRUE,FALSE}
   MaxPairChoices = {0,1}
   Classes = {"A","E"}
+  PlainStrats = {}
   PairLevelOnly = FALSE
   Variant = "D2"
 INVARIANT TypeOK
